@@ -205,4 +205,13 @@ theorem tags_layout_from_source (ts : TagsRec) (buf inp : Bytes) :
        | .panic => .panic) :=
   ⟨tags_size_from_source ts, tags_from_parts_from_source ts buf, tag_readers_from_source inp⟩
 
+/-- **`Tags::from_parts` as a whole, as `tags.rs` spells it today**: its two rejections, then the header writes and the two write loops
+(translated statement by statement on every run into random-access writes `output[a..b].copy_from_slice(v)` through the moving `p`).
+For every list of tags and every output buffer it is the model's `tagsFromParts`; past the rejections the loops produce exactly
+`encodeTags ts` and leave the rest of the buffer alone -/
+theorem tags_writer_from_source (ts : TagsRec) (buf : Bytes) :
+    (tagsFromParts ts buf = if Src.tagsRejects (Src.tagsSize ts) buf.length then .err else .ok (Src.tagsWrite ts buf)) ∧
+    (tagsSize ts ≤ buf.length → Src.tagsWrite ts buf = encodeTags ts ++ buf.drop (tagsSize ts)) :=
+  ⟨Pocket.tags_from_parts_whole_from_source ts buf, Pocket.tags_writer_from_source ts buf⟩
+
 end Pocket.C02
